@@ -14,8 +14,11 @@
      fail      the integrity check raised DatabaseError and the handler caught it,
      err       any other exception (no such table, UNIQUE constraint, FileNotFoundError, ...),
      viol      os.remove() of the database file while another call has it open.
+   Since a7369f2 parse() is wrapped by _fresh_parse_on_database_error (a sqlite3.DatabaseError inside
+   parse() becomes an uncached parse for the caller): `Err e` below means "raised inside parse()", which
+   is what the proxied sqlite3 of the harness observes; the wrapper itself is not modelled.
    Abstractions: a database is (layout of `models`, layout of `metadata`, metadata keys
-   present?, set of cached text ids) or garbage; uncommitted writes live in a private view of the
+   present?, cached rows = (text id, age of last_hit in days)) or garbage; uncommitted writes live in a private view of the
    one writer; files are generations (os.remove unlinks the path, the next connect creates a new
    generation; old generations stay usable by the connections that have them open). *)
 From Coq Require Import List Bool Arith.
